@@ -79,7 +79,10 @@ func NewMemoryCache(spec *MemoryCacheSpec) *MemoryCache {
 }
 
 func (mc *MemoryCache) key(req *httpprot.Request) string {
-	return stringtool.Cat(req.Scheme(), req.Host(), req.Path(), req.Method())
+	// the raw query is part of what the response depends on; the components are
+	// delimited by a space, which none of them can contain, so that two different
+	// requests never share a key.
+	return stringtool.Cat(req.Scheme(), " ", req.Host(), " ", req.Method(), " ", req.Path(), " ", req.Std().URL.RawQuery)
 }
 
 // Load tries to load cache for HTTPContext.
